@@ -2118,7 +2118,11 @@ class Interp:
 
     def e_BinOp(self, n: ast.BinOp, env: Env, mi: ModInfo) -> Any:
         a = self.eval(n.left, env, mi)
+        if a is BOTTOM:
+            return BOTTOM  # the left operand raised: the right one is never evaluated
         b = self.eval(n.right, env, mi)
+        if b is BOTTOM:
+            return BOTTOM
         return self.lift(lambda x, y: self.binop(n.op, x, y, n), a, b)
 
     def binop(self, op: ast.operator, a: Any, b: Any, node: Any, inplace: bool = False) -> Any:
@@ -2165,6 +2169,14 @@ class Interp:
             return type(a)(list(a) + list(b)) if not isinstance(a, Shape) else Shape(tuple(a) + tuple(b))
         if isinstance(a, (tuple, list)) and isinstance(b, int) and name == "mul":
             return type(a)(list(a) * b)
+        if isinstance(b, (tuple, list)) and not isinstance(b, Shape) and isinstance(a, int) and not isinstance(a, bool) and name == "mul":
+            return type(b)(list(b) * a)  # 2 * (p,) == (p, p)
+        if (isinstance(a, (tuple, list)) or isinstance(b, (tuple, list))) and not isinstance(a, Shape) and not isinstance(b, Shape):
+            other = b if isinstance(a, (tuple, list)) else a
+            if isinstance(other, (int, float, sp.Basic)) and not (name == "mul" and not isinstance(other, (int,)) and getattr(other, "is_integer", False)):
+                # a sequence combined with a number (other than repetition by an int): TypeError in Python
+                self.log("raise", node, exc="TypeError")
+                return BOTTOM
         if isinstance(a, dict) or isinstance(b, dict):
             raise Unsupported("dict operator")
         return scalar_binop(name, a, b)
